@@ -306,9 +306,13 @@ find_mapped_pfn(const struct pfn_file_map *maps, size_t nmaps,
 	const struct pfn_file_map *pfm;
 	const struct pfn_region *rgn;
 
-	if (! (pfm = find_pfn_file_map(maps, nmaps, *ppfn)) ||
-	    ! (rgn = find_pfn_region(pfm, *ppfn)))
+	if (! (pfm = find_pfn_file_map(maps, nmaps, *ppfn)))
 		return false;
+
+	/* The PFN may be above the last region of this map. */
+	while (! (rgn = find_pfn_region(pfm, *ppfn)))
+		if (++pfm == maps + nmaps)
+			return false;
 
 	if (rgn->pfn > *ppfn)
 		*ppfn = rgn->pfn;
@@ -326,11 +330,13 @@ find_unmapped_pfn(const struct pfn_file_map *maps, size_t nmaps,
 {
 	const struct pfn_file_map *pfm;
 
-	if ( (pfm = find_pfn_file_map(maps, nmaps, pfn)) &&
-	     pfm->start_pfn <= pfn) {
+	/* Mapped regions may be adjacent across file maps. */
+	while ( (pfm = find_pfn_file_map(maps, nmaps, pfn)) &&
+		pfm->start_pfn <= pfn) {
 		const struct pfn_region *rgn = find_pfn_region(pfm, pfn);
-		if (rgn && rgn->pfn <= pfn)
-			return rgn->pfn + rgn->cnt;
+		if (!rgn || rgn->pfn > pfn)
+			break;
+		pfn = rgn->pfn + rgn->cnt;
 	}
 	return pfn;
 }
